@@ -282,8 +282,18 @@ pub fn suites(id: &str, tier: Tier) -> Vec<Suite> {
             progs.dedup();
             let mut v = vec![];
             v.push(Suite { name: "aborts+drops", host: HostKind::Direct, programs: progs.clone(), bounds: bounds(tier.pick(6, 8), tier.pick(1, 2), 1, tier.pick(1, 2), 2) });
-            v.push(Suite { name: "aborts+drops", host: HostKind::StreamPoll, programs: progs.clone(), bounds: bounds(tier.pick(5, 8), tier.pick(1, 2), 1, tier.pick(1, 2), 2) });
-            v.push(Suite { name: "aborts+drops", host: HostKind::CoreCmd, programs: progs.clone(), bounds: bounds(tier.pick(5, 8), tier.pick(1, 2), 0, tier.pick(1, 2), 2) });
+            // the lazily polled hosts: in the quick tier the 3-node terms over a reduced atom set (all
+            // 2-node terms and all sibling-containment programs stay)
+            let lazy_progs: Vec<P> = if q {
+                let keep = |p: &P| p.size() <= 2 || p.size() >= 4 || !p.contains(&|x| matches!(x,
+                    P::ReqMap(_) | P::StreamMap(_) | P::ReqStream(..) | P::IntoFuture(..) | P::JoinTwice(..) | P::SelfWake(..) | P::SpawnChain(..)
+                    | P::SelectJoinReq(..) | P::Channel(..) | P::StreamUntil(..) | P::HandOff(..) | P::JoinSpawn(..) | P::SpawnAfter(..) | P::Notify(_)));
+                progs.iter().filter(|p| keep(p)).cloned().collect()
+            } else {
+                progs.clone()
+            };
+            v.push(Suite { name: "aborts+drops", host: HostKind::StreamPoll, programs: lazy_progs.clone(), bounds: bounds(tier.pick(5, 8), tier.pick(1, 2), 1, tier.pick(1, 2), 2) });
+            v.push(Suite { name: "aborts+drops", host: HostKind::CoreCmd, programs: lazy_progs, bounds: bounds(tier.pick(5, 8), tier.pick(1, 2), 0, tier.pick(1, 2), 2) });
             if !q {
                 let basic = dsl::basic_atoms();
                 v.push(Suite { name: "aborts+drops/4-nodes-basic", host: HostKind::Direct, programs: dsl::terms_up_to(4, &basic, Grammar::with_abort()), bounds: bounds(7, 2, 1, 1, 2) });
